@@ -42,6 +42,9 @@ def run(db, rep, tier):
     r6(db, rep)
     r7(db, rep)
     r8(db, rep)
+    rep.rule("R9-skip-agreement", "802.11 management subtypes skip, before their fixed parameters, exactly the bytes the management base "
+                                  "class read and writes (its header_size(), fourth address included)", 1)
+    r9(db, rep)
     rep.explanation = ("Structural part of C04: item-level agreement of typed option encoders and decoders (R1), one code per accessor pair (R2), "
                        "cached sizes follow add/remove (R3), first-match lookup and exact removal (R4), one storage predicate in PDUOption (R5). "
                        "NOT decided: the shadow-model clause over arbitrary edit histories, computed length bytes (IPv6 length_field()/8, DNS "
@@ -647,3 +650,40 @@ def r8(db, rep):
             rep.ok("R8-serialise-restores", key, facts.loc(f), "%d edit(s) before the writes, %d restore(s) from a saved local copy at the same index" % (len(before), len(restores)))
     if n < 1:
         rep.analysis_broken("no serialiser editing container elements found (IPv6's next-header chain expected)")
+
+
+def r9(db, rep):
+    from vlib import streamfx as sx
+    MG = "Tins::Dot11ManagementFrame"
+    mfs = [f for f in db.fns_named(MG + "::management_frame_size") if f.get("body")]
+    hs = [f for f in db.fns_named(MG + "::header_size") if f.get("body")]
+    if not mfs or not hs:
+        rep.analysis_broken("Dot11ManagementFrame::management_frame_size / header_size vanished")
+        return
+    users = 0
+    for f in db.functions.values():
+        if f.get("kind") == "ctor" and f.get("body") and MG in db.all_bases(f.get("rec") or ""):
+            if any(x["k"] == "CXXMemberCallExpr" and x.get("cname") == "management_frame_size" for x in facts.fn_nodes(f)):
+                users += 1
+    key = "Dot11ManagementFrame::management_frame_size"
+    K = "Tins::Dot11Beacon"
+    try:
+        fx = sx.Fx(db, K)
+        A = fx.exec_fn(sx.Ctx(fx, mfs[0], cls=K)).get("§ret")
+        B = fx.exec_fn(sx.Ctx(fx, hs[0], cls=K)).get("§ret")
+        if A is None or B is None:
+            raise sx.Opaque("no size form")
+        res = sx.compare(fx, A, B, {}, 0, {})
+    except sx.Opaque as e:
+        rep.analysis_broken("%s: outside the E-STREAMFX language: %s" % (key, e))
+        return
+    bad = [x for x in res if x[0] in ("more", "less", "differ", "undecided")]
+    if bad:
+        rep.violation("R9-skip-agreement", key, facts.loc(mfs[0]),
+                      "the offset the %d subtype parsers skip (`%s`) is not the size of the management header that was read and is written "
+                      "(`%s`): %s - with all four addresses present the fixed parameters are read from the wrong place"
+                      % (users, A, B, bad[0][1] if len(bad[0]) > 1 else bad[0][0]))
+    else:
+        rep.ok("R9-skip-agreement", key, facts.loc(mfs[0]), "equals Dot11ManagementFrame::header_size() on every cell; used by %d subtype parsers" % users)
+    if users < 8:
+        rep.analysis_broken("only %d management subtype parsers use management_frame_size()" % users)
